@@ -86,12 +86,12 @@ def analyse(g, res, crate):
     r.fn_stats = {}
     js = res['json']
     # clause ranges
-    clause_ranges = []      # (start, end, mark)
+    clause_ranges = []      # (start byte, end byte, mark): the woven clause text follows its marker
     for m in g.marks:
-        ln = g.mark_lines.get(m['id'])
-        if ln is None:
+        off = g.mark_offsets.get(m['id'])
+        if off is None:
             continue
-        clause_ranges.append((ln, ln + m['text'].count('\n'), m))
+        clause_ranges.append((off, off + len(m['text'].encode('utf-8')) + 40, m))
     if res['rc'] == 124:
         r.resource.append('verus timed out')
     for d in res['diags']:
@@ -109,6 +109,7 @@ def analyse(g, res, crate):
             r.hard_errors.append(rendered)
             continue
         line = sp['line_start'] if sp else -1
+        bstart = sp['byte_start'] if sp else -1
         item = None
         for name, (a, b) in g.item_ranges.items():
             if a <= line <= b:
@@ -119,10 +120,14 @@ def analyse(g, res, crate):
             continue
         label = None
         # For precondition failures the primary span is the call site; for post/invariant the clause.
+        # The clause is the one whose marker most closely precedes the span.
+        best = None
         for (a, b, m) in clause_ranges:
-            if a <= line <= b and m['item'] == item:
-                label = m['label']
-                break
+            if a <= bstart <= b and m['item'] == item:
+                if best is None or a > best[0]:
+                    best = (a, m)
+        if best is not None:
+            label = best[1]['label']
         if label is None or label == 'proof':
             label = 'implicit'
         oid = '%s/%s/%s' % (crate, item, label)
